@@ -200,27 +200,37 @@ Definition codeh (r : res (option dict)) : Z :=
 (* non-vacuity: rows after resolve, a smaller matrix after a success, a matrix failing at a line, repeated compiles *)
 Example ex_history :
   map codeh (history init_system
-    [OConn m55; OLex [row 4 4 [] true]; OResolve; OCompile; OLex [row 0 0 [] true]; OCompile;
-     OConn m22; OCompile; OConn (m55 ++ [[TBad]]); OCompile; OConn [[TNum 1; TBad]]; OCompile])
+    [OConn SBytes m55; OLex SBytes [row 4 4 [] true]; OResolve; OCompile; OLex SBytes [row 0 0 [] true]; OCompile;
+     OConn SBytes m22; OCompile; OConn SBytes (m55 ++ [[TBad]]); OCompile; OConn SBytes [[TNum 1; TBad]]; OCompile])
   = [0; 0; 0; 1; 0; 1; 0; -1; -1; 1; -1; 1].
 Proof. vm_compute. reflexivity. Qed.
 
 (* a read_conn that leaves the old limits behind when it fails half-way (limits_follow_on_error = false): the following
    compile validates against the 5x5 matrix and writes the 2x2 one *)
 Example history_success_means_valid_refuted_stale_limits :
-  map codeh (run_history gen_bfacts false true init_system
-    [OConn m55; OLex [row 4 4 [] true]; OConn (m22 ++ [[TBad]]); OCompile]) = [0; 0; -1; 3].
+  map codeh (run_history gen_bfacts false true false false init_system
+    [OConn SBytes m55; OLex SBytes [row 4 4 [] true]; OConn SBytes (m22 ++ [[TBad]]); OCompile]) = [0; 0; -1; 3].
 Proof. vm_compute. reflexivity. Qed.
 
 (* a user-dictionary builder whose limits follow a matrix read into it (user_limits_fixed = false) *)
 Example history_success_means_valid_refuted_user_matrix :
-  map codeh (run_history gen_bfacts true false (init_user 4 3 6)
-    [OConn [[TNum 10; TNum 10]]; OLex [row 9 9 [] true]; OCompile]) = [0; 0; 3].
+  map codeh (run_history gen_bfacts true false false false (init_user 4 3 6)
+    [OConn SBytes [[TNum 10; TNum 10]]; OLex SBytes [row 9 9 [] true]; OCompile]) = [0; 0; 3].
 Proof. vm_compute. reflexivity. Qed.
 
 (* rows of several read_lexicon calls count together *)
 Example ex_history_homographs :
   map (fun r => match r with Ok None => 0 | Ok (Some d) => if index_lists_ok d then 1 else 3 | Err => -1 | Panic => -2 end)
-    (history init_system [OConn m11; OLex (repeat (hrow 0 5) 64); OLex (repeat (hrow 0 5) 63); OCompile; OLex [hrow 0 5]; OCompile])
+    (history init_system [OConn SBytes m11; OLex SBytes (repeat (hrow 0 5) 64); OLex SBytes (repeat (hrow 0 5) 63); OCompile; OLex SBytes [hrow 0 5]; OCompile])
   = [0; 0; 0; 1; 0; -1].
 Proof. vm_compute. reflexivity. Qed.
+
+(* an arm of read_conn that returns on its own when reading a FILE failed (conn_file_route_returns_early = true): the matrix
+   read from a file fails at a line after its 2x2 header was taken, the limits stay those of the 5x5 matrix and compile
+   writes ids outside the 2x2 matrix; the same calls with bytes in memory end in an error value *)
+Example history_source_irrelevant_refuted_early_return :
+  map codeh (run_history gen_bfacts true true true false init_system
+    [OConn SBytes m55; OLex SBytes [row 4 4 [] true]; OConn SFile (m22 ++ [[TBad]]); OCompile]) = [0; 0; -1; 3]
+  /\ map codeh (run_history gen_bfacts true true true false init_system
+    [OConn SBytes m55; OLex SBytes [row 4 4 [] true]; OConn SBytes (m22 ++ [[TBad]]); OCompile]) = [0; 0; -1; -1].
+Proof. split; vm_compute; reflexivity. Qed.
